@@ -347,6 +347,34 @@ def rule_means(chk, prog):
 
 def rule_clock(chk, prog):
   rule = 'C11.clock'
+  # the clock snap used between steps: sim_time ← dt·round(sim_time / dt) (the identity on multiples of dt), nothing else touched
+  f = prog.func(f'{TI}.maybe_fix_sim_time_roundoff')
+  ev0 = sym.Evaluator(prog)
+  v0, _, env0 = ev0.run(f)
+  stp, dtp = S(f.param_names()[0]), S(f.param_names()[1])
+  A0 = alg.Algebra(ev0)
+  tsym = A0.name(lambda t: t == Term('attr', stp, 'sim_time'), 'sim_time')
+  dsym = A0.name(lambda t: t == dtp, 'dt', positive=True)
+  new_time = None
+  for t in sym.walk(v0):
+    if t.k == 'obj' and util.field(t, 'sim_time') is not None:
+      new_time = util.field(t, 'sim_time')
+  if new_time is None:
+    stores = [t for t in [v0] + [x for x in env0.values() if isinstance(x, Term)] for t in sym.walk(t) if t.k == 'setattr' or (t.k == 'store' and sym.show(t.a[1]) == "'sim_time'")]
+    new_time = stores[0].a[2] if stores else None
+  if new_time is None:
+    # attribute assignment on the parameter is modelled as an updated object; fall back to the assigned expression in the syntax tree
+    import ast as _ast
+    for n_ in _ast.walk(f.node):
+      if isinstance(n_, _ast.Assign) and isinstance(n_.targets[0], _ast.Attribute) and n_.targets[0].attr == 'sim_time':
+        new_time = ev0.eval(n_.value, {f.param_names()[0]: stp, f.param_names()[1]: dtp}, sym.Ctx(f, 0)) if hasattr(ev0, 'eval') else None
+  ok = new_time is not None
+  if ok:
+    e = A0.conv(new_time)
+    rounds = [x for x in e.atoms(sp.Function) if 'round' in str(x.func)]
+    ok = len(rounds) == 1 and alg.equal(rounds[0].args[0], tsym / dsym) and alg.equal(e, dsym * rounds[0])
+  chk.check(ok, rule, f'{TI}.maybe_fix_sim_time_roundoff: sim_time ← dt·round(sim_time/dt) — the nearest multiple of dt, the identity on the exact clock', sym.show(new_time)[:120] if new_time is not None else 'not found',
+            (f.file, f.lineno), 'dt * round(sim_time / dt)', sym.show(new_time)[:120] if new_time is not None else 'not found')
   for cq, m, want in ((f'{PE}.PrimitiveEquationsWithTime', 'explicit_terms', 1.0), (f'{PE}.MoistPrimitiveEquations', 'explicit_terms', 1.0),
                       (f'{PE}.MoistPrimitiveEquationsWithCloudMoisture', 'explicit_terms', 1.0), (f'{PE}.PrimitiveEquationsWithTime', 'implicit_terms', 0.0),
                       (f'{PE}.MoistPrimitiveEquations', 'implicit_terms', 0.0)):
